@@ -3,12 +3,15 @@ package main
 import (
 	"bytes"
 	"context"
+	"errors"
 	"fmt"
 	"math/big"
 	"net/http"
+	"strings"
 	"sync"
 	"time"
 
+	core "github.com/iden3/go-iden3-core/v2"
 	"github.com/iden3/go-merkletree-sql/v2"
 	"github.com/iden3/go-schema-processor/v2/loaders"
 	"github.com/iden3/go-schema-processor/v2/merklize"
@@ -83,12 +86,17 @@ func emitMix(out *Out, r *Rng, goroutines, rounds int) {
 	stop := make(chan struct{})
 	if ve2 != nil {
 		go func() { // time passes while the goroutines run: entries expire during the run
-			for {
+			// ... less than an hour of it in all: the memory engine hands out its embedded documents as valid for one hour from
+			// the moment of the read, and the virtual clock shifts that answer too - a mix that runs for more than 7 s on a busy
+			// machine would see them "expired", which no real clock ever shows
+			for n := 0; ; n++ {
 				select {
 				case <-stop:
 					return
 				case <-time.After(2 * time.Millisecond):
-					ve2.tick(1)
+					if n < maxVirtualTicks {
+						ve2.tick(1)
+					}
 				}
 			}
 		}()
@@ -189,14 +197,26 @@ func emitMix(out *Out, r *Rng, goroutines, rounds int) {
 		Tags: []string{fmt.Sprintf("goroutines:%d", goroutines), "cache:" + cfg.cacheMode, "ctxpolicy:" + ctxLoader.policy}, NT: true})
 }
 
+// virtual seconds that may pass during one mix (see emitMix)
+const maxVirtualTicks = 3000
+
 // waitOrHang waits for the group; when it does not finish in time the mix is reported as hanging (the goroutines stay behind)
 func waitOrHang(wg *sync.WaitGroup, d time.Duration, onHang func()) {
 	done := make(chan struct{})
 	go func() { wg.Wait(); close(done) }()
-	select {
-	case <-done:
-	case <-time.After(d):
-		onHang()
+	// wall time, like guard: the wait is scaled by VERIF_TIMEOUT_SCALE (the confirmation run) and extended while the load average
+	// says the cores are oversubscribed - goroutines that really hang are still reported, later
+	d = time.Duration(float64(d) * timeoutScale())
+	for ext := 0; ; ext++ {
+		select {
+		case <-done:
+			return
+		case <-time.After(d):
+		}
+		if ext >= 8 || !overloaded() {
+			onHang()
+			return
+		}
 	}
 }
 
@@ -346,6 +366,331 @@ func emitBurst(out *Out, r *Rng, goroutines int) {
 	out.Emit(Case{Op: "none", In: J{"burst": goroutines}, Impl: J{"returned": okN}, Prop: propOf(append([]string{}, why...)), Tags: []string{"burst", fmt.Sprintf("goroutines:%d", goroutines)}, NT: true})
 }
 
+// ---------- the data slots of a non-merklized credential, under many schedules ----------
+
+// schedHasher answers exactly like the Poseidon hasher; hashing one of the listed messages (the key IRIs of the fields the data
+// slots are read from) just takes a little longer. Whatever runs concurrently inside or next to a call gets ready in another
+// order; a sequential execution only becomes slower. The values never depend on the delays.
+type schedHasher struct {
+	merklize.PoseidonHasher
+	delay map[string]time.Duration
+}
+
+func (h schedHasher) HashBytes(msg []byte) (*big.Int, error) {
+	if d := h.delay[string(msg)]; d > 0 {
+		time.Sleep(d)
+	}
+	return h.PoseidonHasher.HashBytes(msg)
+}
+
+// slotVariant: one credential of a type with a serialization attribute, and what filling its slots one after the other gives
+type slotVariant struct {
+	fault     string // none | absent (term defined, field not set) | undefined (the attribute names a field the type does not have)
+	faultSlot string
+	cred      *ACred
+	vc        *verifiable.W3CCredential
+	fields    [4]string // field path per slot (IndexA, IndexB, ValueA, ValueB); "" = unassigned
+	iris      [4]string // key IRI of that field
+	opts      verifiable.CoreClaimOptions
+	wantErr   bool // a slot cannot be filled: sequentially an error
+	wantWhy   string
+	wantSlots [4]*big.Int
+	refHex    string // the claim one sequential call gives (plain hasher)
+	refErr    error
+	mu        sync.Mutex
+	why       []string
+	calls     int
+}
+
+func (v *slotVariant) fail(m string) {
+	v.mu.Lock()
+	if len(v.why) < 4 {
+		v.why = append(v.why, m)
+	}
+	v.mu.Unlock()
+}
+
+// oracle: the slots filled one after the other by the harness itself through the merklizer's public API
+func (v *slotVariant) sequentialSlots(ctx context.Context, loader merklize.MerklizeOption) {
+	for i := range v.wantSlots {
+		v.wantSlots[i] = big.NewInt(0)
+	}
+	mz, err := v.vc.Merklize(ctx, loader)
+	if err != nil {
+		v.wantErr, v.wantWhy = true, "the credential cannot be merklized: "+trunc(err.Error(), 80)
+		return
+	}
+	for i, f := range v.fields {
+		if f == "" {
+			continue
+		}
+		p, err := mz.ResolveDocPath("credentialSubject." + f)
+		if err != nil {
+			v.wantErr, v.wantWhy = true, fmt.Sprintf("the field %s of %s does not resolve", f, slotKeys[i])
+			return
+		}
+		e, err := mz.Entry(p)
+		if err != nil {
+			v.wantErr, v.wantWhy = true, fmt.Sprintf("the credential has no field %s for %s", f, slotKeys[i])
+			return
+		}
+		x, err := e.ValueMtEntry()
+		if err != nil {
+			v.wantErr, v.wantWhy = true, fmt.Sprintf("the value of the field %s of %s cannot be hashed", f, slotKeys[i])
+			return
+		}
+		v.wantSlots[i] = x
+	}
+}
+
+// judge one result of ToCoreClaim against the sequential one
+func (v *slotVariant) judge(how string, cl *core.Claim, err error) {
+	v.mu.Lock()
+	v.calls++
+	v.mu.Unlock()
+	if errors.Is(err, errHang) {
+		v.fail("hang: ToCoreClaim " + how + " did not return within 20 s")
+		return
+	}
+	var pe *panicErr
+	if errors.As(err, &pe) {
+		v.fail("ToCoreClaim " + how + " panicked: " + trunc(pe.Error(), 160))
+		return
+	}
+	if err == nil && cl == nil {
+		v.fail("ToCoreClaim " + how + " returns no claim and no error")
+		return
+	}
+	if v.wantErr {
+		if err == nil {
+			s := cl.RawSlotsAsInts()
+			v.fail(fmt.Sprintf("ToCoreClaim %s returns a claim (data slots %v %v %v %v) although %s: filling the slots one after the other gives an error",
+				how, s[2], s[3], s[6], s[7], v.wantWhy))
+		}
+		return
+	}
+	if v.refErr != nil {
+		if err == nil {
+			v.fail(fmt.Sprintf("ToCoreClaim %s returns a claim; the sequential call fails (%s)", how, trunc(v.refErr.Error(), 80)))
+		}
+		return
+	}
+	if err != nil {
+		v.fail(fmt.Sprintf("ToCoreClaim %s fails (%s); the sequential call gives a claim", how, trunc(err.Error(), 100)))
+		return
+	}
+	if h, _ := cl.Hex(); h != v.refHex {
+		s := cl.RawSlotsAsInts()
+		v.fail(fmt.Sprintf("ToCoreClaim %s gives another claim than the sequential call (data slots %v %v %v %v, sequentially %v)", how, s[2], s[3], s[6], s[7], v.wantSlots))
+	}
+}
+
+func (v *slotVariant) call(ctx context.Context, loader merklize.MerklizeOption, h merklize.Hasher) (*core.Claim, error) {
+	o := v.opts // every call its own options object
+	o.MerklizerOpts = []merklize.MerklizeOption{loader}
+	if h != nil {
+		o.MerklizerOpts = append(o.MerklizerOpts, merklize.WithHasher(h))
+	}
+	return guard(20*time.Second, func() (*core.Claim, error) { return v.vc.ToCoreClaim(ctx, &o) })
+}
+
+// a schedule: a delay per assigned slot's field; ranks of a permutation times a step, so that the slots' lookups get ready in
+// the order of the permutation when they run concurrently
+func (v *slotVariant) schedule(perm []int, step time.Duration) (schedHasher, []any) {
+	h := schedHasher{delay: map[string]time.Duration{}}
+	var desc []any
+	k := 0
+	for i, f := range v.fields {
+		if f == "" {
+			continue
+		}
+		d := time.Duration(perm[k%len(perm)]) * step
+		k++
+		h.delay[v.iris[i]] = d
+		desc = append(desc, fmt.Sprintf("%s+%dms", slotKeys[i], d/time.Millisecond))
+	}
+	return h, desc
+}
+
+// emitSlotSchedules: credentials of one non-merklized type family (2-4 of the four data slots assigned to distinct fields, plain
+// and nested) - complete, with the field of one assigned slot not set, and with an attribute naming a field the type does not
+// define - are turned into core claims (a) by one caller under several schedules of the slots' lookups and (b) by many
+// goroutines at once, all through one shared loader and cache. Every call must give what filling the slots one after the
+// other gives: the same claim, or an error when a slot cannot be filled - never a claim with that slot left empty.
+func emitSlotSchedules(out *Out, r *Rng, goroutines, rounds int) {
+	ctx := context.Background()
+	base := randCred(r, false)
+	base.SubjectTypeAs = "string"
+	id := r.Intn(1 << 30)
+	nf := len(base.Fields)
+	k := 2
+	if nf > 2 {
+		m := nf
+		if m > 4 {
+			m = 4
+		}
+		k += r.Intn(m - 1)
+	}
+	fperm, sperm := r.Perm(nf), r.Perm(4)
+	var fields [4]string
+	var parts []string
+	for i := 0; i < k; i++ {
+		fields[sperm[i]] = base.Fields[fperm[i]].Name
+		parts = append(parts, slotKeys[sperm[i]]+"="+base.Fields[fperm[i]].Name)
+	}
+	base.SerAttr = "iden3:v1:" + strings.Join(parts, "&")
+	var assigned []int
+	for i, f := range fields {
+		if f != "" {
+			assigned = append(assigned, i)
+		}
+	}
+	extra := map[string][]byte{vcCtxURL: []byte(vcCtx)}
+	var vs []*slotVariant
+	for _, fault := range []string{"none", "absent", "undefined"} {
+		c := *base
+		c.Fields = append([]CField{}, base.Fields...)
+		c.TypeURL = fmt.Sprintf("https://ctx.example/c20-slots-%d-%s.jsonld", id, fault)
+		v := &slotVariant{fault: fault, cred: &c, fields: fields}
+		if fault != "none" {
+			fs := assigned[r.Intn(len(assigned))]
+			v.faultSlot = slotKeys[fs]
+			var kept []CField
+			for _, f := range c.Fields {
+				if f.Name == fields[fs] {
+					if fault == "undefined" {
+						continue
+					}
+					f.Absent = true
+				}
+				kept = append(kept, f)
+			}
+			c.Fields = kept
+		}
+		for i, f := range fields {
+			if f != "" {
+				v.iris[i] = "urn:ex:cred-vocab#" + strings.TrimPrefix(f, "addr.")
+			}
+		}
+		vc, err := c.W3C()
+		if err != nil {
+			out.Emit(Case{Op: "none", In: J{"slotSchedules": J{"credential": string(c.JSON())}}, Impl: errJ(err), Prop: &PropRes{OK: false, Why: "harness: the generated credential does not parse: " + err.Error()}, NT: true})
+			return
+		}
+		v.vc = vc
+		v.opts = verifiable.CoreClaimOptions{RevNonce: r.U64() >> uint(r.Intn(64)), Version: uint32(r.Intn(3)), Updatable: r.Bool(),
+			SubjectPosition: []string{"", verifiable.CredentialSubjectPositionIndex, verifiable.CredentialSubjectPositionValue}[r.Intn(3)]}
+		extra[c.TypeURL] = c.typeContext()
+		if c.SingleContext {
+			extra[c.bundleURL()] = c.bundleContext()
+		}
+		vs = append(vs, v)
+	}
+	// one shared loader and cache for everything that follows; the contexts come from an origin that answers a little late
+	cfg := loaderCfg{cacheMode: []string{"memory", "virtual"}[r.Intn(2)]}
+	origin := &ctxOrigin{scripted: &scriptedOrigin{docs: map[string]*orgEntry{}}, extra: extra, policy: []string{"max-age=3600", "max-age=3", "no-store", "max-age=0"}[r.Intn(4)]}
+	ldr, ve := loaderWithCtx(cfg, slowOrigin{origin, time.Duration(r.Intn(3)) * time.Millisecond})
+	loader := merklize.WithDocumentLoader(ldr)
+	stop := make(chan struct{})
+	if ve != nil {
+		go func() {
+			for n := 0; ; n++ {
+				select {
+				case <-stop:
+					return
+				case <-time.After(2 * time.Millisecond):
+					if n < maxVirtualTicks {
+						ve.tick(1)
+					}
+				}
+			}
+		}()
+	}
+	defer close(stop)
+	step := time.Duration(5+r.Intn(8)) * time.Millisecond
+	var schedDesc []any
+	for _, v := range vs {
+		v.sequentialSlots(ctx, loader)
+		cl, err := v.call(ctx, loader, nil)
+		if err == nil && cl != nil {
+			v.refHex, _ = cl.Hex()
+			if !v.wantErr {
+				s := cl.RawSlotsAsInts()
+				for i, si := range []int{2, 3, 6, 7} {
+					if s[si].Cmp(v.wantSlots[i]) != 0 {
+						v.fail(fmt.Sprintf("ToCoreClaim (one caller, plain hasher) puts %v into %s; the value of the field %q hashes to %v", s[si], slotKeys[i], v.fields[i], v.wantSlots[i]))
+						break
+					}
+				}
+			}
+		} else {
+			v.refErr = err
+			if err == nil {
+				v.refErr = errNilNil
+			}
+		}
+		v.judge("(one caller, plain hasher)", cl, err)
+		// (a) one caller, the slots' lookups scheduled: a permutation, its reverse, and a random vector of delays
+		perm := r.Perm(k)
+		rev := make([]int, k)
+		for i := range perm {
+			rev[i] = k - 1 - perm[i]
+		}
+		rnd := make([]int, k)
+		for i := range rnd {
+			rnd[i] = r.Intn(k)
+		}
+		for _, p := range [][]int{perm, rev, rnd} {
+			h, desc := v.schedule(p, step)
+			schedDesc = append(schedDesc, desc)
+			cl, err := v.call(ctx, loader, h)
+			v.judge(fmt.Sprintf("(one caller, schedule %v)", desc), cl, err)
+		}
+	}
+	// (b) many goroutines share the loader, the cache and the credential objects
+	seeds := make([]uint64, goroutines)
+	for i := range seeds {
+		seeds[i] = r.U64()
+	}
+	var wg sync.WaitGroup
+	for gi := 0; gi < goroutines; gi++ {
+		wg.Add(1)
+		go func(gi int) {
+			defer wg.Done()
+			lr := NewRng(seeds[gi])
+			for n := 0; n < rounds; n++ {
+				v := vs[lr.Intn(len(vs))]
+				if lr.Chance(40) {
+					cl, err := v.call(ctx, loader, nil)
+					v.judge(fmt.Sprintf("(one of %d goroutines, plain hasher)", goroutines), cl, err)
+					continue
+				}
+				h, desc := v.schedule(lr.Perm(k), step)
+				cl, err := v.call(ctx, loader, h)
+				v.judge(fmt.Sprintf("(one of %d goroutines, schedule %v)", goroutines, desc), cl, err)
+			}
+		}(gi)
+	}
+	waitOrHang(&wg, 90*time.Second, func() {
+		for _, v := range vs {
+			v.fail(fmt.Sprintf("hang: %d goroutines building claims through one shared loader did not finish within 90 s", goroutines))
+		}
+	})
+	for _, v := range vs {
+		v.mu.Lock()
+		seq := "claim"
+		if v.wantErr || v.refErr != nil {
+			seq = "err"
+		}
+		in := J{"attr": base.SerAttr, "fault": v.fault, "faultSlot": v.faultSlot, "credential": string(v.cred.JSON()), "context": string(v.cred.typeContext()),
+			"goroutines": goroutines, "rounds": rounds, "stepMs": int(step / time.Millisecond), "cache": cfg.cacheMode, "ctxpolicy": origin.policy}
+		out.Emit(Case{Op: "none", In: J{"slotSchedules": in}, Impl: J{"sequential": seq}, Prop: propOf(append([]string{}, v.why...)),
+			Tags: []string{"slot-schedules", "fault:" + v.fault, fmt.Sprintf("slots:%d", k), fmt.Sprintf("goroutines:%d", goroutines), "cache:" + cfg.cacheMode}, NT: true})
+		v.mu.Unlock()
+	}
+	_ = schedDesc
+}
+
 func proofSig(p *merkletree.Proof) string {
 	if p == nil {
 		return "nil"
@@ -367,6 +712,10 @@ func genC20(out *Out, r *Rng, tier string, n int, shard int) {
 			emitBurst(out, r, []int{24, 48, 96}[r.Intn(3)])
 			emitSharedCredential(out, r, []int{4, 16, 32}[r.Intn(3)])
 		}
+	}
+	// after the mixes (their inputs stay what they were for a given seed)
+	for j := 0; j < 1+n/8; j++ {
+		emitSlotSchedules(out, r, []int{2, 4, 8, 16}[r.Intn(4)], 2+r.Intn(2))
 	}
 }
 
